@@ -14,6 +14,12 @@
    {op:"unwrap", C:[points], bonds:[[i,j]..], B, gotU:[int points], gotR:[int points]}
       (systems wrapped atom by atom, or cut by one face / edge / corner of the box; cubic,
       anisotropic and elongated boxes)
+   {op:"bcast", fn, ops:[[rank, coordinates]..], bo: [] | ["one", B] | ["per", [B1..Bm]], rank, got}
+      fn(ops[1], .., box) with operands of mixed dimensionality (rank 1 (3,), 2 (n,3), 3 (m,n,3);
+      ndarrays and Atom / AtomArray / AtomArrayStack objects) in random order; rank = number of
+      leading axes of the result, got = the result brought to [model][atom] (one model / one atom
+      for the lower ranks): int vectors (displacement), squared distances (distance), [lo,hi]
+      (angle), [lo,hi,sgn] (dihedral) as above; exc = 1 when the call raised an exception
    A disagreement prints <<"MISMATCH", trace, event, what, position, expected>>. *)
 EXTENDS GeomOps, SequencesExt, Json, IOUtils
 
@@ -116,14 +122,43 @@ JudgeUnwrap(t, k, e) ==
       expB == [n \in DOMAIN e.bonds |-> ImplDisp(VSub(C[hi(n)], C[lo(n)]), B)]
   IN Report(t, k, "unwrapU", okU, U) /\ Report(t, k, "unwrapR", okR, R) /\ Report(t, k, "unwrapBond", okB, expB)
 
+(* operands of mixed dimensionality: the result has the rank and the extent of the broadcast
+   operands; every entry whose value is specified and defined equals GeomOps!Broadcast; a
+   periodic displacement is a lattice vector away from the plain difference in any case *)
+JudgeBcast(t, k, e) ==
+  LET ops == e.ops  ba == e.bo  fn == e.fn
+      M == ModelCount(ops)  N == AtomCount(ops)
+      res == Broadcast(fn, ops, ba)
+      Mi(x) == ((x - 1) \div N) + 1
+      Ai(x) == ((x - 1) % N) + 1
+      shapeOK == /\ e.rank = ResultRank(ops) /\ Len(e.got) = M
+                 /\ \A mi \in 1..M : Len(e.got[mi]) = N
+      Match(g, v) ==
+        CASE fn = "displacement" -> g = v
+          [] fn = "distance" -> g = v
+          [] fn = "angle" -> CosInside(g[1], g[2], v)
+          [] fn = "dihedral" -> /\ CosInside(g[1], g[2], <<v[2], v[2] * v[2] + v[1] * v[1] * v[3]>>)
+                                /\ (g[3] # 0 => g[3] = Sgn(v[1]))
+      ok == [x \in 1..(M * N) |->
+               LET ent == res[Mi(x)][Ai(x)]  g == e.got[Mi(x)][Ai(x)]  bo == BoxAt(ba, Mi(x)) IN
+               /\ (ent[2] /\ ent[3]) => Match(g, ent[1])
+               /\ (fn = "displacement" /\ bo # <<>>) =>
+                     IsLatticeVec(VSub(g, VSub(OperandAt(ops[2], Mi(x), Ai(x)), OperandAt(ops[1], Mi(x), Ai(x)))), bo[1])]
+      exp == [x \in 1..(M * N) |-> res[Mi(x)][Ai(x)]]
+  IN IF ~(Dom_Operands(ops) /\ Dom_BoxArg(ba, ops)) THEN PrintT(<<"MISMATCH", t, k, "operands outside the domain", 0, 0>>)
+     ELSE IF e.exc = 1 THEN PrintT(<<"MISMATCH", t, k, "exception", 0, ResultRank(ops)>>)
+     ELSE IF ~shapeOK THEN PrintT(<<"MISMATCH", t, k, "bcast-shape", 0, <<ResultRank(ops), M, N>>>>)
+     ELSE Report(t, k, "bcast", ok, exp)
+
 \* the recorder must stay inside Dom_DyadicBox (a box outside is a defect of the generator)
-BoxesOf(e) == IF e.op = "measure" THEN {e.bo[n] : n \in DOMAIN e.bo} ELSE IF e.op = "unwrap" THEN {e.B} ELSE {}
+BoxesOf(e) == IF e.op = "measure" THEN {e.bo[n] : n \in DOMAIN e.bo} ELSE IF e.op = "unwrap" THEN {e.B} ELSE {}   \* (bcast: Dom_BoxArg)
 Judge(t, k) ==
   LET e == Tr[t][k] IN
   CASE \E B \in BoxesOf(e) : ~Dom_DyadicBox(B) -> PrintT(<<"MISMATCH", t, k, "box outside Dom_DyadicBox", 0, 0>>)
     [] e.op = "measure" -> JudgeMeasure(t, k, e)
     [] e.op = "rigid"   -> JudgeRigid(t, k, e)
     [] e.op = "unwrap"  -> JudgeUnwrap(t, k, e)
+    [] e.op = "bcast"   -> JudgeBcast(t, k, e)
     [] OTHER -> PrintT(<<"MISMATCH", t, k, "unknown op", 0, 0>>)
 
 Init == trcNo \in 1..Len(Tr) /\ evNo = 0
